@@ -40,6 +40,9 @@ def plan(tier, seed):
                           "timeout_s": 3600})
     for g in range(2 if tier == "quick" else 8):
         specs.append({"mode": "pyfunc", "group": 100 + g, "per_fn": 4 if tier == "quick" else 40, "timeout_s": 3600})
+    if tier == "thorough":
+        # the repository's own test-suite once under array-bounds instrumentation
+        specs.append({"mode": "suite", "group": 200, "envname": "bc", "env": ENVS["bc"], "timeout_s": 3600})
     return specs
 
 
@@ -334,8 +337,44 @@ def run_pyfunc(spec, ctx, bm):
                     ctx.violation(clause, "%s/differs_from_py_func/%s" % (name, vname), {"rel_err": e, "jit": fj[:8], "py": fp[:8]}, case)
 
 
+def run_suite(spec, ctx):
+    """Run the repository's tests in a child pytest with NUMBA_BOUNDSCHECK=1 and look for IndexError failures."""
+    import subprocess
+    import tempfile
+    import xml.etree.ElementTree as ET
+    from ..common import PY, VERIF, repo_root
+    root = repo_root()
+    out = tempfile.mktemp(suffix=".xml", dir=os.path.join(VERIF, ".cache"))
+    env = dict(os.environ)
+    r = subprocess.run([PY, "-m", "pytest", "-q", "-p", "no:cacheprovider", "--timeout=900", "--junitxml=" + out, "tests"], cwd=root, env=env,
+                       stdout=subprocess.PIPE, stderr=subprocess.STDOUT, text=True)
+    n = nidx = 0
+    try:
+        for tc in ET.parse(out).getroot().iter("testcase"):
+            n += 1
+            ctx.evaluations += 1
+            for ch in tc:
+                if ch.tag in ("failure", "error"):
+                    txt = (ch.get("message") or "") + (ch.text or "")
+                    if "IndexError" in txt:
+                        nidx += 1
+                        ctx.violation("bounds", "suite/IndexError/" + tc.get("name", "?"), {"message": txt[-400:]}, {"suite_test": tc.get("name")})
+    finally:
+        if os.path.exists(out):
+            os.remove(out)
+    ctx.clause("suite_under_boundscheck", n)
+    ctx.extra["suite_tests_under_boundscheck"] = n
+    if n == 0:
+        ctx.inconc("repository test-suite produced no results under NUMBA_BOUNDSCHECK=1: " + r.stdout[-300:])
+
+
 def run_shard(spec, ctx):
     ctx.spec = spec
+    if spec["mode"] == "suite":
+        from ..worker import import_target
+        import_target()
+        run_suite(spec, ctx)
+        return
     bm = armlib.load_bm()
     if spec["mode"] == "triple":
         run_triple(spec, ctx, bm)
